@@ -212,6 +212,16 @@ def make(I):
         return mk(z3.And(*acc), 'bool') if acc else True
 
 
+    def uf_application_args(I, v, name):
+        """the numeric arguments of the application `name(...)` that the symbolic value v is (None if it is not one): lets a clause
+        talk about exactly the pixel a kernel value was computed for"""
+        if not isinstance(v, Sym) or not z3.is_app(v.e) or not v.e.decl().name().startswith(name + '__'):
+            return None
+        out = []
+        for a in v.e.children():
+            out.append(mk(a, 'int' if a.sort().kind() == z3.Z3_INT_SORT else 'bool' if a.sort().kind() == z3.Z3_BOOL_SORT else 'real'))
+        return tuple(out)
+
     def use_lemma(I, name):
         """record that the facts stated next are the conclusion of the lemma contract `name` (the checker then requires that this
         contract is proved in the same run)"""
@@ -322,7 +332,7 @@ def make(I):
     ns = dict(fresh_real=F('fresh_real', fresh_real), fresh_int=F('fresh_int', fresh_int), fresh_bool=F('fresh_bool', fresh_bool),
               fact=F('fact', fact), assume=F('assume', assume), implies=F('implies', implies), ite=F('ite', ite),
               oblige=F('oblige', oblige), event=F('event', event), is_symbolic=F('is_symbolic', is_symbolic),
-              unsupported=F('unsupported', unsupported), uf_real=F('uf_real', uf_real), uf=F('uf', uf), split_first_line=F('split_first_line', split_first_line), uf_text=F('uf_text', uf_text), stub=F('stub', stub), is_text=F('is_text', is_text), use_lemma=F('use_lemma', use_lemma), text_isascii=F('text_isascii', text_isascii), exact_number_text=F('exact_number_text', exact_number_text), piece_value=F('piece_value', piece_value), text_equal=F('text_equal', text_equal), abstract_path_vertices=F('abstract_path_vertices', abstract_path_vertices), abstract_path_codes=F('abstract_path_codes', abstract_path_codes), abstract_outline_vertices=F('abstract_outline_vertices', abstract_outline_vertices), abstract_outline_codes=F('abstract_outline_codes', abstract_outline_codes), is_selection=F('is_selection', is_selection), selection_parts=F('selection_parts', selection_parts), is_nonfinite=F('is_nonfinite', is_nonfinite), lemma=F('lemma', lemma), general=F('general', general), arr_like=F('arr_like', arr_like), is_bool_scalar=F('is_bool_scalar', is_bool_scalar), is_bool_array=F('is_bool_array', is_bool_array), dtype_of=F('dtype_of', dtype_of), uf_bool=F('uf_bool', uf_bool),
+              unsupported=F('unsupported', unsupported), uf_real=F('uf_real', uf_real), uf=F('uf', uf), split_first_line=F('split_first_line', split_first_line), uf_text=F('uf_text', uf_text), stub=F('stub', stub), is_text=F('is_text', is_text), use_lemma=F('use_lemma', use_lemma), uf_application_args=F('uf_application_args', uf_application_args), text_isascii=F('text_isascii', text_isascii), exact_number_text=F('exact_number_text', exact_number_text), piece_value=F('piece_value', piece_value), text_equal=F('text_equal', text_equal), abstract_path_vertices=F('abstract_path_vertices', abstract_path_vertices), abstract_path_codes=F('abstract_path_codes', abstract_path_codes), abstract_outline_vertices=F('abstract_outline_vertices', abstract_outline_vertices), abstract_outline_codes=F('abstract_outline_codes', abstract_outline_codes), is_selection=F('is_selection', is_selection), selection_parts=F('selection_parts', selection_parts), is_nonfinite=F('is_nonfinite', is_nonfinite), lemma=F('lemma', lemma), general=F('general', general), arr_like=F('arr_like', arr_like), is_bool_scalar=F('is_bool_scalar', is_bool_scalar), is_bool_array=F('is_bool_array', is_bool_array), dtype_of=F('dtype_of', dtype_of), uf_bool=F('uf_bool', uf_bool),
               arr_from_fn=F('arr_from_fn', arr_from_fn), arr_at=F('arr_at', arr_at), witness=F('witness', witness), is_array=F('is_array', is_array),
               cos=F('cos', N.np_cos), sin=F('sin', N.np_sin), sqrt=F('sqrt', lambda I, x: B.sqrt_(I, x)), PI=N.PI,
               deepcopy=F('deepcopy', lambda I, v: I.ext_modules and __import__('pyvc.stdlib_models', fromlist=['x']).deepcopy(I, v)),
